@@ -1021,6 +1021,8 @@ namespace fixedmath
     
     constexpr fixed_internal _39o16 { 159744 }; // 19/16
     constexpr fixed_internal atan_39o16 { 77429 }; //77429,4473907736
+    
+    constexpr fixed_internal _2pow18 { fixed_internal{1} << 34 }; // 262144
 
     fixed_internal x { value.v };
     bool sign_ {};
@@ -1038,8 +1040,10 @@ namespace fixedmath
       result = atan_sum<prec_, atan_11o16, _11o16>( x );
     else if( x < _39o16 )
       result = atan_sum<prec_, atan_19o16, _19o16>( x );
-    else
+    else if( fixed_likely( x < _2pow18 ) )
       result = atan_sum<prec_, atan_39o16, _39o16>( x );
+    else
+      result = fixpidiv2.v; //phi/2 - atan(x) < 1/x < 2^-18, and x * c in atan_sum would overflow for x > 2^63/159744
     
     if( !sign_)
       return as_fixed(result);
